@@ -369,3 +369,13 @@ def push(viol, v, per_sig=3):
     k = canon(v.get('signature'))
     if sum(1 for w in viol if canon(w.get('signature')) == k) < per_sig:
         viol.append(v)
+
+
+def numerically_singular(make_matrix, limit=1e9):
+    """does the implementation agree that a matrix the exact model found singular is (numerically) singular?  make_matrix() builds the implementation's matrix"""
+    import numpy as np
+    try:
+        A = np.asarray(make_matrix(), dtype=float)
+        return A.size == 0 or A.shape[0] != A.shape[1] or not np.all(np.isfinite(A)) or np.linalg.cond(A) > limit
+    except Exception:
+        return True
